@@ -259,6 +259,10 @@ class Scripted:
             if st == step:
                 rep, changed = apply(rep, dev)
                 self.applied += changed
+        if getattr(self, "double_at", None) == step:
+            # once: the reply to a GETNEXT carries two rows (the next one and the one after it)
+            self.double_at = None
+            rep = default_reply("getbulk", req.oids[0], 2)
         self.replies.append(rep)
         return [drivers.reply_for(self.cfg, req, rep)]
 
@@ -400,6 +404,11 @@ def loss_cases(tier):
             yield {"driver": driver, "cfg": Cfg("v2c").describe(), "method": method, "max_rep": mr, "lost": [0, 1, 2, 3, 4]}
 
 
+def refused_cases(tier):
+    for driver in ("sync", "async"):
+        yield {"driver": driver, "cfg": Cfg("v2c").describe(), "method": "getnext", "max_rep": None, "lost": [0, 1, 2, 3, 4], "refused": True}
+
+
 def run_loss(case, res):
     """The reply to the k-th request is lost: next() raises TimeoutError; the caller asks the same iterator again.
     Over the whole walk every row is yielded once, in order."""
@@ -431,14 +440,18 @@ def run_loss(case, res):
             res.count("violating_walks", 9)
             small = dict(case)
             small["lost"] = [k]
-            res.violation("%s/lost-reply-%s: %s" % (case["driver"], method, _cls(prob)), "reply to request #%d lost, iterator asked again after the TimeoutError: %s" % (k, prob), small)
+            what = "refused-reply" if case.get("refused") else "lost-reply"
+            res.violation("%s/%s-%s: %s" % (case["driver"], what, method, _cls(prob)), "reply to request #%d %s, the same iterator asked again after the error: %s" % (k, "carried two rows (refused or not)" if case.get("refused") else "lost", prob), small)
 
     if case["driver"] == "sync":
         w = drivers.SyncWorld(cfg, sc, timeout=0.15, max_repetitions=max_rep or 3)
         try:
             for k in case["lost"]:
                 sc.arm(method, max_rep, [])
-                sc.drop_at = k
+                if case.get("refused"):
+                    sc.double_at = k
+                else:
+                    sc.drop_at = k
                 it = iter(mk(w.session))
                 got, timeouts, end = [], 0, None
                 while end is None and len(got) < 30 and timeouts < 4:
@@ -449,7 +462,10 @@ def run_loss(case, res):
                     except TimeoutError:
                         timeouts += 1
                     except Exception as e:  # noqa: BLE001
-                        end = "raised " + type(e).__name__
+                        if case.get("refused") and isinstance(e, drivers.subject()[1].SnmpError):
+                            timeouts += 1  # the reply was refused; the caller goes on with the same iterator
+                        else:
+                            end = "raised " + type(e).__name__
                 check(k, got, timeouts, end or "no end")
             if w.errors:
                 res["machinery"].append("agent errors %s" % w.errors[:2])
@@ -460,7 +476,10 @@ def run_loss(case, res):
         async def client(s):
             for k in case["lost"]:
                 sc.arm(method, max_rep, [])
-                sc.drop_at = k
+                if case.get("refused"):
+                    sc.double_at = k
+                else:
+                    sc.drop_at = k
                 it = mk(s).__aiter__()
                 got, timeouts, end = [], 0, None
                 while end is None and len(got) < 30 and timeouts < 4:
@@ -471,7 +490,10 @@ def run_loss(case, res):
                     except TimeoutError:
                         timeouts += 1
                     except Exception as e:  # noqa: BLE001
-                        end = "raised " + type(e).__name__
+                        if case.get("refused") and isinstance(e, drivers.subject()[1].SnmpError):
+                            timeouts += 1
+                        else:
+                            end = "raised " + type(e).__name__
                 check(k, got, timeouts, end or "no end")
 
         o, reqs, errs = drivers.run_async(cfg, sc, client, timeout=0.15, max_repetitions=max_rep or 3)
@@ -711,7 +733,7 @@ def run(tier):
         "a GETNEXT reply with >= 2 varbinds ends normally or with SnmpError",
         "horizon: a walk that sends more than %d requests is reported as non-terminating" % MAX_REQUESTS,
     )
-    cases = list(gen_cases(tier)) + list(interleave_cases(tier)) + list(loss_cases(tier))
+    cases = list(gen_cases(tier)) + list(interleave_cases(tier)) + list(loss_cases(tier)) + list(refused_cases(tier))
     common.run_cases(rec, work, cases, chunk=1, timeout=900, case_timeout=300)
     n = rec.counters["walks"]
     return rec.finish(evaluations=n, distinct_nontrivial=rec.distinct_n, states=n, transitions=rec.counters["requests"], traces=n)
